@@ -22,6 +22,8 @@ def main():
             pv = lambda v: (F(v["volume"]), [F(x) for x in v["additive"]], [F(x) for x in v["non_additive"]])
             c = {"adds": case["additive"], "nons": case["non_additive"], "a": pv(case["a"]), "b": pv(case["b"]),
                  "d": pv(case["d"]), "v": F(case["v"])}
+            if case.get("declared_by_load"):
+                c["declared_by_load"] = case["declared_by_load"]
             K.monitor_c10(rep, 0, replay_case=c)
             return rep.finish("replay of one recorded case", [])
     ok = C.proof_stage(rep, "props/C10.v")
@@ -37,7 +39,7 @@ def main():
             "non-additive; zero, tiny (<= 1e-11), dyadic and large values; wet and dry-mass) through every core flux "
             "method, implementation on exact numbers vs translated Gallina definition compared exactly incl. argument "
             "dictionaries after the call and ZeroDivisionError <-> divok=false; monitor: the C10 laws evaluated "
-            "directly on the implementation. non-trivial = distinct case with positive first volume")
+            "directly on the implementation, in every fifth case with the pollutant set declared by loading a configuration file that carries all or some of the keys pollutants / additive_pollutants / non_additive_pollutants (Model.load). non-trivial = distinct case with positive first volume")
     return rep.finish(rule, ["exact-rational semantics stands for float semantics up to rounding",
                              "decay keys are additive pollutants (well-formedness)"])
 
